@@ -132,4 +132,7 @@ if __name__ == '__main__':
                 tier = a.split('=', 1)[1]
         for sid in ids:
             if os.path.isdir(os.path.join(SEEDED, sid)):
-                run(sid, props, tier, in_place='--in-place' in sys.argv)
+                try:
+                    run(sid, props, tier, in_place='--in-place' in sys.argv)
+                except Exception as ex:   # one stale patch must not stop the batch
+                    print(sid, 'ERROR', repr(ex)[:300])
